@@ -1178,6 +1178,15 @@ func (ex *Exec) enterLoop(fr *Frame, li *loopInfo, st *State) {
 		}
 	}
 	_ = hasCall
+	// ghost maps updated at call sites of the function under verification
+	// (at call ... ghostset) may be updated by any iteration
+	if fr.top && hasCall && ex.contract != nil {
+		for _, s := range ex.contract.Sites {
+			for _, g := range s.Ghosts {
+				ws["G:"+g.Map] = true
+			}
+		}
+	}
 	for k := range ws {
 		if strings.HasPrefix(k, "G:") {
 			if g, ok := ex.prog.Contracts.GhostMaps[k[2:]]; ok && g.Stable {
